@@ -259,6 +259,12 @@ pub fn gen(args: &Args, out: &mut dyn Write) {
         writeln!(out, "{v}").unwrap();
     };
     // hand-picked boundary files
+    // other magics (plain bitmaps are not supported): an error or an image, never a panic
+    for sp in [&b"P1 2 2\n1 0 2 1"[..], b"P1 2 2\n0110", b"P1 1 1 255", b"P1 3 1 9 9 9", b"P4 9 1 \xff\x80", b"P7 1 1 255 x", b"P0 1 1 255 x", b"P9 1 1 1 1"] {
+        for via in ["parse_pnm", "read_pnm"] {
+            emit(out, json!({"op": "parse", "via": via, "bytes": sp}));
+        }
+    }
     let specials: [&[u8]; 23] = [
         b"P6 0 5 255 ", b"P6 5 0 255 ", b"P6 0 0 255 ", b"P5 0 3 255 ", b"P2 0 2 255 ", b"P3 0 1 255",
         b"P6 65536 65536 255 ", b"P5 65536 65536 255 abc", b"P6 4294967295 4294967295 255 ",
